@@ -348,6 +348,8 @@ def jobs(tier, seed):
         js.append(dict(crawl_cookies=list(order)))
     for order in itertools.permutations(range(3)):
         js.append(dict(cred_crawl=list(order)))
+    for i in range(0, len(COOKIE_DOMAIN_CASES), 3):
+        js.append(dict(cookie_domain=list(range(i, min(i + 3, len(COOKIE_DOMAIN_CASES))))))
     if seed:
         k = seed % len(js)
         js = js[k:] + js[:k]
@@ -417,6 +419,64 @@ def run_crawl_cookies(order):
     return None, out
 
 
+# (setting host, other host, Domain attribute, may the other host receive the cookie?)
+COOKIE_DOMAIN_CASES = [
+    ('10.0.3.4', '192.168.3.4', '.3.4', False), ('10.0.3.4', '192.168.3.4', '3.4', False),
+    ('10.0.3.4', '10.0.3.40', '10.0.3.4', False),
+    ('evil.com.', 'good.com.', '.com.', False), ('evil.com', 'good.com', '.com', False),
+    ('evil.com', 'good.com', 'com', False), ('evil.com.', 'good.com', 'com.', False),
+    ('evil', 'good', '.local', False), ('evil', 'good', 'local', False),
+    ('evil.co.uk', 'good.co.uk', '.co.uk', False), ('evil.co.uk', 'good.co.uk', 'co.uk', False),
+    ('evil.test', 'good.test', 'good.test', False), ('a.evil.test', 'evil.test.good.test', 'evil.test', False),
+    ('evil.test', 'notevil.test', 'evil.test', False),
+    ('www.a.test', 'a.test', '.a.test', True), ('www.a.test', 'img.a.test', 'a.test', True),
+    ('a.test', 'www.a.test', 'a.test', True),
+]
+
+
+def run_cookie_domain(idx, code):
+    """The setting host answers its page with ``Set-Cookie: sid=SECRET; Domain=<attr>`` and
+    sends the client on to the other host (by a link when code is 0, else by a redirect with
+    that status): the cookie may reach the other host only if the Domain attribute names a
+    domain that both hosts belong to."""
+    setter, other, attr, allowed = COOKIE_DOMAIN_CASES[idx]
+    site = {'hosts': {setter: {}, other: {}}}
+    site['hosts'][setter]['/first'] = (
+        {'links': ['http://%s/second' % other]} if not code else
+        {'redirect': [code, 'http://%s/second' % other]})
+    site['hosts'][setter]['/third'] = {'links': []}
+    site['hosts'][other]['/second'] = {'links': ['http://%s/third' % setter]}
+
+    def strategy(peer, conn, req):
+        hk = peer.hostkey(conn, req)
+        page = dict(site['hosts'].get(hk, {}).get(req['target']) or {'status': 404, 'body': 'nf'})
+        if hk == setter and req['target'] == '/first':
+            page['headers'] = [['Set-Cookie', 'sid=SECRET; Domain=%s; Path=/' % attr],
+                               ['Set-Cookie', 'own=1; Path=/']]
+        return page
+    argv = ['http://%s/first' % setter, '-r', '--span-hosts', '--no-robots', '--delete-after',
+            '--waitretry', '0', '--tries', '1']
+    out = AppRun(site, argv, Chooser(), strategy=strategy, early=False).run()
+    if out['result'] != 'ok' or out['exc']:
+        return 'crawl failed: %s %s' % (out['result'], out['exc']), out
+    got_other = None
+    for q in out['requests']:
+        host = q['headers'].get('host', '')
+        ck = q['headers'].get('cookie', '')
+        if host == other and q['target'] == '/second':
+            got_other = ck
+            if 'own=' in ck:
+                return ('host-only cookie of %s sent to %s' % (setter, other)), out
+            if 'sid=' in ck and not allowed:
+                return ('cookie set by %s with Domain=%s was sent to the unrelated host %s'
+                        % (setter, attr, other)), out
+    if got_other is None:
+        return 'scenario did not reach the other host', out
+    if allowed and 'sid=' not in got_other:
+        return ('vacuous: the domain cookie for %s was not sent to %s' % (attr, other)), out
+    return None, out
+
+
 def run_cred_crawl(order):
     """A page fetched with URL credentials links to the same host, another host and a
     sub-domain: nothing sent to the other hosts may contain the credentials (Referer!)."""
@@ -479,6 +539,22 @@ def run_job(job):
                 v, job['cred_crawl']), signature='C16:cred-crawl:' + classify(v),
                 cred_crawl=job['cred_crawl']))
         return res
+    if job.get('cookie_domain') is not None:
+        for idx in job['cookie_domain']:
+            for code in (0, 301, 302, 303, 307, 308):
+                v, out = run_cookie_domain(idx, code)
+                res['evaluations'] += 1
+                res['extra']['requests_checked'] += len(out.get('requests') or [])
+                res['distinct'].add(h64(('cookie-domain', idx, code)))
+                if v:
+                    sig = 'C16:cookie-domain:%s:%s' % (COOKIE_DOMAIN_CASES[idx][2], classify(v)[:30])
+                    if sig not in seen:
+                        seen.add(sig)
+                        res['violations'].append(dict(
+                            violation='%s [case %s, via %s]' % (
+                                v, COOKIE_DOMAIN_CASES[idx], code or 'link'),
+                            signature=sig, cookie_domain=[idx, code]))
+        return res
     if job.get('crawl_cookies') is not None:
         v, out = run_crawl_cookies(job['crawl_cookies'])
         res['evaluations'] += 1
@@ -534,6 +610,10 @@ def replay(rec):
         return v, 'C16:referer' if v else None, [q['raw'] for q in out['requests']]
     if rec.get('cred_crawl') is not None:
         v, out = run_cred_crawl(rec['cred_crawl'])
+        return (rec['violation'] if v else None), (rec['signature'] if v else None), \
+            [q['raw'] for q in out.get('requests') or []]
+    if rec.get('cookie_domain') is not None:
+        v, out = run_cookie_domain(*rec['cookie_domain'])
         return (rec['violation'] if v else None), (rec['signature'] if v else None), \
             [q['raw'] for q in out.get('requests') or []]
     if rec.get('crawl_cookies') is not None:
